@@ -190,3 +190,6 @@ func U32sAt(u uintptr, n int) []uint32 {
 	}
 	return unsafe.Slice((*uint32)(unsafe.Pointer(u)), n)
 }
+
+// PtrTokenOf returns the address token of any pointer.
+func PtrTokenOf(p any) uintptr { return 0 }
